@@ -71,19 +71,24 @@ def bounded_unitary(which):
         p2 = ft.pad2d(f, out_shape=(m + int(rng.integers(0, 5)), n + int(rng.integers(0, 5))))
         check('energy-out_shape', bool(np.isclose(E(p2), E(f))))
     elif which == 'mdft-czt-full-band-roundtrip':
-        Q = float(rng.choice([1.0, 1.5, 2.0, 3.0]))
-        M, N = m * Q, n * Q
-        if abs(M - round(M)) > 1e-9 or abs(N - round(N)) > 1e-9:
-            Q = 2.0
-            M, N = m * Q, n * Q
-        M, N = int(round(M)), int(round(N))
+        tight = dict(rtol=1e-10, atol=1e-12)
+        # any output size M >= m is a complete band at Q = M / m (per axis): terminating and non-terminating ratios alike
+        M, N = m + int(rng.integers(0, 2 * m + 1)), n + int(rng.integers(0, 2 * n + 1))
+        if rng.random() < 0.3:
+            k = int(rng.integers(1, 4))
+            M, N = m * k, n * k
+        Q = (M / m, N / n)
+        if M * n == N * m and rng.random() < 0.5:
+            Q = M / m                             # the scalar calling convention
         for fw, bw, tag in ((ft.mdft.dft2, ft.mdft.idft2, 'mdft'), (ft.czt.czt2, ft.czt.iczt2, 'czt')):
             F = fw(f, Q, (M, N))
-            check(tag + '-energy', bool(np.isclose(E(F), E(f))))
+            check(tag + '-energy', bool(np.isclose(E(F), E(f), **tight)))
             back = bw(F, 1.0, (m, n))      # the band is complete: M = m Q samples at Q' = m Q / M = 1
-            check(tag + '-roundtrip', bool(np.allclose(back, f, atol=1e-8)))
+            check(tag + '-roundtrip', bool(np.allclose(back, f, atol=1e-10 * (1 + abs(f).max()), rtol=0)))
     elif which == 'angular-spectrum':
         wvl, dx = float(rng.uniform(0.4, 1.0)), float(rng.uniform(0.005, 0.05))
+        if rng.random() < 0.3:
+            dx = wvl / 1e3 * float(rng.uniform(0.05, 0.6))     # sampling finer than the wavelength: still a unit-modulus kernel
         z1, z2 = float(rng.uniform(-50, 50)), float(rng.uniform(-50, 50))
         for Q in (1, 2):
             g = ft.pad2d(f, Q) if Q != 1 else f
